@@ -5,7 +5,7 @@ From Coq Require Import List ZArith Bool Lia.
 Import ListNotations.
 From Goat Require Import Model.Client Model.Protocol Proofs.ClientBase Proofs.ProtocolClient.
 From Goat Require Model.Server Model.Sys Proofs.SysC01.
-From Goat Require Import Proofs.ServerOrigin Proofs.SysLog Proofs.ServerWriter Proofs.ServerProto Proofs.SysCancel Proofs.ServerTrailer.
+From Goat Require Import Proofs.ServerOrigin Proofs.SysLog Proofs.ServerWriter Proofs.ServerProto Proofs.SysCancel Proofs.ServerTrailer Proofs.ServerUnary Proofs.ServerUnaryProto.
 Open Scope Z_scope.
 
 (* Client half. For EVERY run of the client model (any peer, any interleaving of the internal rules with
@@ -107,9 +107,21 @@ Theorem C06_trailer_present : forall nw ls (s : Server.state) h k,
 Proof. exact ServerTrailer.C06_trailer_present_l. Qed.
 Print Assumptions C06_trailer_present.
 
-(* NOT PROVED (checked on the real server by the monitor only): the unary half of C06_server (exactly one response
-   with header, trailer and a body or a non-OK status: needs a hypothesis on unary handler programs - a reply or an
-   error). *)
+(* C06_server, unary half. [uconf i log] is the peer's side for id i: every envelope READ with id i is a unary-method
+   request and there is at most one such envelope (what C06_client gives for a unary call: exactly one request). Then,
+   for every run, the server WRITES at most one envelope of id i, and that envelope has a header and a trailer, is no
+   reset and carries a unary method. Assembly (Proofs/ServerUnaryProto.v) of sv's Proofs/ServerUnary.v (shape and
+   count of the unary responses taken by the writer), ServerRoute.v (the unary envelopes read are, in order, the jobs
+   handed to workers), ServerWriter.v (written is a subsequence of taken), ServerOrigin.v (method echoed).
+   NOT PROVED: "a body or a non-OK status" (needs a hypothesis on unary handler programs: a reply or an error) and
+   "exactly one" beyond sv's srv_unary_exactly_once (idle workers, live connection: every job's response was taken);
+   the automaton's acceptance of the unary projection is checked on the real server by the monitor. *)
+Theorem C06_server_unary : forall nw ls (s : Server.state) i,
+  Server.lrun (Server.init_n nw) ls = Some s -> uconf i (Server.log s) ->
+  (length (idf i (written (Server.log s))) <= 1)%nat /\
+  forall f, In f (idf i (written (Server.log s))) -> ushape f = true /\ umth f = true.
+Proof. exact ServerUnaryProto.C06_server_unary_l. Qed.
+Print Assumptions C06_server_unary.
 
 (* the hypotheses of C06_client are met by a non-trivial run: open, two bodies, half-close, then the
    caller cancels: the client wrote open, body, body, trailer, reset - and the automaton accepts it *)
